@@ -1,7 +1,7 @@
 (* C14 — Hit-object lines decode per the legacy grammar.
    Only statements, each closed by [exact] of a lemma from Proofs/, followed
    by Print Assumptions; pins of the constants the property text names; and
-   Examples (non-vacuity, the D3 residue witness, the spinner-bit witness).
+   Examples (non-vacuity, the dropped residue of a rejected slider, the spinner-bit witness).
 
    Model: Model/HitObjectLine.v (parse_hit_objects), Model/PathString.v
    (convert_path_str, convert_points with its index loops), Model/HitSamples.v.
@@ -58,8 +58,8 @@ Print Assumptions C14_no_panic.
    position = the parsed, truncated one; new combo = flag, or first object,
    or after a type with the spinner bit; combo offset only with the flag;
    slider: repeats <= cap, stored repeats = max 0 (raw - 1), repeats + 2 node
-   sample sets, length None or >= eps (> 0), control points = leftover
-   curve_points ++ path_spec; spinner / hold duration >= 0. *)
+   sample sets, length None or >= eps (> 0), control points = path_spec (whatever
+   curve_points held before is dropped); spinner / hold duration >= 0. *)
 Theorem C14_accepted_line :
   forall st line st',
   parse_hit_objects st line = Done (st', Ok) ->
@@ -167,7 +167,8 @@ Proof. split; vm_compute; reflexivity. Qed.
 (* ---------- T14b: the path string ---------- *)
 (* convert_path_str (index loops, fuel) is total and equals the structural
    [path_spec]: on success the control points are appended to curve_points; on
-   a malformed path the points of the well-formed leading segments stay there *)
+   a malformed path the points of the well-formed leading segments stay there
+   (scratch: parse_hit_objects clears curve_points before the next path) *)
 Theorem C14_path_spec :
   forall pb point_str offset, exists V,
     convert_path_str pb point_str offset
@@ -212,7 +213,7 @@ Example path_examples :
   (* Catmull: only the first pair splits; never at the segment's end *)
   length (fst (path_spec (lit "C|1:1|1:1|2:2|2:2|3:3") (mkPos S.zero S.zero))) = 6%nat /\
   length (fst (path_spec (lit "B|1:1|2:2|2:2") (mkPos S.zero S.zero))) = 4%nat /\
-  (* malformed later segment: residue, not ok *)
+  (* malformed later segment: not ok (the two leading points stay in the scratch buffer) *)
   (length (fst (path_spec (lit "B|100:100|L|200:0|P|x:0") (mkPos S.zero S.zero))),
    snd (path_spec (lit "B|100:100|L|200:0|P|x:0") (mkPos S.zero S.zero))) = (2%nat, false).
 Proof. repeat split; vm_compute; reflexivity. Qed.
@@ -254,17 +255,19 @@ Example samples_examples :
       (samples_spec (mkSBI (Some (lit "f.wav")) None None 0 0) 2) = [1; 10 + nm_whistle].
 Proof. split; vm_compute; reflexivity. Qed.
 
-(* ---------- C06-relevant: a rejected line ---------- *)
-(* on Rejected only [curve_points] (by appending) and [vertices] can differ *)
+(* ---------- C06-relevant: a rejected line is as if absent ---------- *)
+(* [same_but_scratch a b]: a and b agree on last_object, hit_objects and mode,
+   i.e. on everything except the scratch buffers curve_points and vertices *)
+
+(* (a) on Rejected only the scratch buffers can differ *)
 Theorem C14_rejected_state :
   forall st line st',
   parse_hit_objects st line = Done (st', Rejected) ->
-  ho_last st' = ho_last st /\ ho_objects st' = ho_objects st /\ ho_mode st' = ho_mode st /\
-  exists residue, ho_curve st' = ho_curve st ++ residue.
+  ho_last st' = ho_last st /\ ho_objects st' = ho_objects st /\ ho_mode st' = ho_mode st.
 Proof. exact rejected_state. Qed.
 Print Assumptions C14_rejected_state.
 
-(* and only a slider line can do so *)
+(* ... and only a slider line touches even those *)
 Theorem C14_rejected_non_slider :
   forall st line st' f,
   parse_hit_objects st line = Done (st', Rejected) ->
@@ -272,36 +275,43 @@ Theorem C14_rejected_non_slider :
 Proof. exact rejected_non_slider. Qed.
 Print Assumptions C14_rejected_non_slider.
 
-(* D3: the residue is real and reaches the next slider *)
-Example D3_witness :
+(* (b) congruence: states that agree up to the scratch buffers give the same
+   result flag, the same hit_objects (hence the same pushed object) and
+   last_object, and output states that again agree up to the scratch buffers *)
+Theorem C14_scratch_irrelevant :
+  forall st1 st2 line st1' r1 st2' r2,
+  same_but_scratch st1 st2 ->
+  parse_hit_objects st1 line = Done (st1', r1) ->
+  parse_hit_objects st2 line = Done (st2', r2) ->
+  r1 = r2 /\ same_but_scratch st1' st2'.
+Proof. exact scratch_irrelevant. Qed.
+Print Assumptions C14_scratch_irrelevant.
+
+(* (c) over line sequences, from any start state: with [l] rejected where it
+   stands, folding over [pre ++ l :: post] ends with the same hit_objects and
+   last_object as folding over [pre ++ post] *)
+Theorem C14_rejected_line_absent :
+  forall st pre l post st',
+  parse_hit_objects (run_from st pre) l = Done (st', Rejected) ->
+  ho_last (run_from st (pre ++ post)) = ho_last (run_from st (pre ++ l :: post)) /\
+  ho_objects (run_from st (pre ++ post)) = ho_objects (run_from st (pre ++ l :: post)) /\
+  ho_mode (run_from st (pre ++ post)) = ho_mode (run_from st (pre ++ l :: post)).
+Proof. exact rejected_line_absent. Qed.
+Print Assumptions C14_rejected_line_absent.
+
+(* the former D3 input: the rejected slider still leaves two points in the
+   scratch buffer, and they no longer reach the next slider *)
+Definition enc_case (mode : Z) (lines : list str) : list Z :=
+  mode :: flat_map (fun l => Z.of_nat (length l) :: l) lines.
+Example residue_is_dropped :
   let bad := lit "1,1,0,2,0,B|100:100|L|200:0|P|x:0,1,300" in
   let good := lit "1,1,0,2,0,L|50:50,1,50" in
   Z.of_nat (length (ho_curve (run_lines 0 [bad]))) = 2 /\
-  obs_cp_counts (run_lines 0 [bad; good]) = [4] /\
-  obs_cp_counts (run_lines 0 [good]) = [2].
-Proof. repeat split; vm_compute; reflexivity. Qed.
-
-(* the same on the canonical dumps of the correspondence driver: the dump
-   after [bad; good] (minus the two result codes) differs from the dump after
-   [good] alone (minus its result code) *)
-Definition enc_case (mode : Z) (lines : list str) : list Z :=
-  mode :: flat_map (fun l => Z.of_nat (length l) :: l) lines.
-Example D3_witness_on_dumps :
-  let bad := lit "1,1,0,2,0,B|100:100|L|200:0|P|x:0,1,300" in
-  let good := lit "1,1,0,2,0,L|50:50,1,50" in
+  obs_cp_counts (run_lines 0 [bad; good]) = [2] /\
+  obs_cp_counts (run_lines 0 [good]) = [2] /\
   firstn 2 (Drv14.run_c14 (enc_case 0 [bad; good])) = [1; 0] /\
-  firstn 1 (Drv14.run_c14 (enc_case 0 [good])) = [0] /\
-  skipn 2 (Drv14.run_c14 (enc_case 0 [bad; good])) <> skipn 1 (Drv14.run_c14 (enc_case 0 [good])).
-Proof. repeat split; vm_compute; try reflexivity. discriminate. Qed.
-
-(* [vertices] is scratch: whatever it holds, the outcome and every other field are the same *)
-Theorem C14_vertices_scratch :
-  forall st v line st1 r1 st2 r2,
-  parse_hit_objects st line = Done (st1, r1) ->
-  parse_hit_objects (with_vertices st v) line = Done (st2, r2) ->
-  r1 = r2 /\ with_vertices st1 [] = with_vertices st2 [].
-Proof. exact vertices_irrelevant. Qed.
-Print Assumptions C14_vertices_scratch.
+  skipn 2 (Drv14.run_c14 (enc_case 0 [bad; good])) = skipn 1 (Drv14.run_c14 (enc_case 0 [good])).
+Proof. repeat split; vm_compute; reflexivity. Qed.
 
 (* the slider fields read before the path (repeat cap, repeats - 1 floored at
    0, length rule, repeats + 2 node sample sets by position with defaults for
